@@ -101,27 +101,58 @@ class P(Prop):
         (M, "TV.C16.dp_any_tiebreak", "T7: whichever of several equally far fixes is taken as split point (the runs the correspondence check accepts), the result is a sublist keeping both ends; any scalar type"),
         (M, "TV.C16.dp_any_tiebreak_tolerance", "T7: every such run is within tolerance, and the code's own run (first farthest fix) is one of them"),
         (M, "TV.C16.single_fix", "a one-fix track is returned unchanged by both algorithms"),
+        (M, "TV.C16.dp_track_points", "T8: the positions of the Track returned by douglas_peucker(track, eps) are those of the list-level model douglasPeucker (and it recurses for ever exactly when that model does): T1-T5, T7 are about the Track that simplify(track, eps, MODE_SIMPLIFY_DOUGLAS_PEUCKER) returns; any scalar type"),
+        (M, "TV.C16.dp_track_obs", "T8: Douglas-Peucker returns the input's OBSERVATIONS (position, timestamp tag and feature row) as a sub-sequence with both ends; the result's feature dict is empty (names not transmitted), its uid/tid/base are the input's or Track()'s defaults 0/0/None (always the defaults for a track of <= 2 fixes)"),
+        (M, "TV.C16.dp_track_correct", "the statement of C16 for Douglas-Peucker on the Track object in one piece (ordered field, exact sqrt): a result exists, its observations (feature rows included) are a sub-sequence with both ends, every input fix is within eps of the returned polyline"),
+        (M, "TV.C16.vw_track", "T9: Visvalingam on a Track with a well-formed feature table without '@aire', any tolerance: the call succeeds, the positions are the list-level model's, the observations returned keep their feature rows, the feature dict and uid/tid/base are the input's: the temporary '@aire' column (created last, read by ARGMIN, updated, removed) leaves no trace; the input is not written (deep copy; the model is a function)"),
+        (M, "TV.C16.vw_track_ends", "T9: with T6's hypothesis the first and last observation (feature rows included) of the Track are kept"),
+        (M, "TV.C16.vw_removeObs_is_C04", "composition with C04: output.removeObs(id) (TV.Seq.removeObs, the model of removeObsList([id]) used by the Track-level loop) is the eraseIdx of the list-level loop; the + of Douglas-Peucker uses C04's sameNames rule as it is"),
+        (M, "TV.C16.simplify_dispatch", "simplify(track, tol, 1) is douglas_peucker, mode 2 is visvalingam, a mode outside 1..8 raises (NameError); modes 3..8 call other functions, outside the statement"),
+        (M, "TV.C16.vw_sentinel_first_pass", "T6' (round 1's open statement, now proved): when no interior fix has an initial area below ARGMIN's sentinel (>= 1e300, inf, NaN), ARGMIN answers 0, NaN > eps is False, and the first pass removes the FIRST observation; any scalar type"),
+        (M, "TV.C16.vw_threshold", "T10 (threshold semantics, linear order): under T6's hypothesis every interior fix of Visvalingam's result spans with its two neighbours in the result a triangle of area > eps^2 (the '@aire' column stays consistent with the current neighbours; ARGMIN designates a smallest entry)"),
     ]
     partial = []
     open_statements = [
         "IEEE rounding: T3 (field form), T4 and T5 are over a linearly ordered field with an exact sqrt; on floats the tolerance is sampled by the transfer "
         "check with slack 1e-9 (T1, T2, T6 and the scalar-independent T3 do apply to the Float model as they assume nothing about the scalar)",
-        "Visvalingam with a triangle area >= 1e300 or NaN (coordinates ~1e150, not ENU tracks): ARGMIN falls back to index 0 and the first fix is removed; excluded by T6's hypothesis",
+        "Visvalingam beyond the FIRST pass when areas reach ARGMIN's sentinel 1e300 or are NaN/infinite (coordinates ~1e150 and more, not ENU tracks): "
+        "T6' proves that the first pass removes the first fix when no area is below the sentinel; mixed columns and the later passes are only compared "
+        "with the model (stream `wild`)",
+        "T10 (vw_threshold) is proved over a linear order; on floats the areas are rounded, so an area within an ulp of eps^2 may fall on either side "
+        "(model and code agree bit for bit there: correspondence)",
     ]
     modelled = ("util/geometry.py distance_to_segment (l == 0 branch, normalised scalar product, clamp to the segment's box), "
                 "triangle_area, aire_visval; algo/simplification.py douglas_peucker (n <= 2 base case, first farthest fix by strict >, "
                 "dmax < eps, split L[0:imax] / L[imax:n], recursion, concatenation) and visvalingam (eps **= 2, '@aire' column with NaN at "
-                "both ends, Operator.ARGMIN with the 1e300 sentinel, break on area > eps, removal, two neighbour updates); simplify() dispatch")
-    trusted = ["`eps **= 2` is modelled as eps*eps: the generators only emit tolerances with tol**2 == tol*tol in Python",
-               "Track.copy (deepcopy), Track.__add__, removeObs and the feature table are trusted to keep observations intact "
-               "(the oracle checks tags and positions of the output observations)",
-               "visvalingam on an empty track (Python raises AnalyticalFeatureError) is outside the model"]
-    rule = ("tracks of 1..9 fixes on integer lattices of side 2..6 (collinear runs, consecutive duplicates, revisited positions, closed loops "
+                "both ends, Operator.ARGMIN with the 1e300 sentinel, break on area > eps, removal, two neighbour updates). "
+                "On the Track object (Model/SimplifyTrack.lean): simplify(track, tolerance, mode, verbose) dispatch for every mode "
+                "(1, 2 modelled; 3 squaring and 4..8 optimalSimplification named, not modelled; others NameError); douglas_peucker's "
+                "Track(L) / Track([L[0], L[n-1]], uid, tid, base) / Track(L[0:imax], ...) + Track(L[imax:n], ...) with Track.__add__'s "
+                "rule for uid/tid/base and the feature dict (C04's sameNames); visvalingam's track.copy(), addAnalyticalFeature(aire_visval, '@aire') "
+                "(createAnalyticalFeature when new: column len(dico), 0.0; an empty track raises), setObsAnalyticalFeature('@aire', 0, nan), "
+                "the loop on that column of the feature rows (getObsAnalyticalFeature, C04's removeObs), removeAnalyticalFeature('@aire') with its index shift")
+    trusted = ["`eps **= 2` is modelled as eps*eps: the generators only emit tolerances with tol**2 == tol*tol in Python (a tolerance >= 1.35e154 makes "
+               "`eps **= 2` raise OverflowError: class vw-tolerance-square-overflow, generated once listed)",
+               "Track.copy is a deep copy (the model is functional: it cannot write its input; the harness compares a full snapshot of the input "
+               "track before and after every call: observations' identity, positions, times, feature rows, feature dict, uid/tid/base)",
+               "z coordinates and timestamps are not in the model (the algorithms never read them); the harness checks they travel unchanged",
+               "feature rows are as long as the feature dict says (C01's invariant)"]
+    rule = ("[list-level streams] tracks of 1..9 fixes on integer lattices of side 2..6 (collinear runs, consecutive duplicates, revisited positions, closed loops "
             "forced with stated probabilities), quarter-step dyadic and 2-decimal float tracks; tolerances 1e-3..1e3 (ints and floats), random "
             "3-digit tolerances and tolerances equal to the float distance of a fix to the chord (the dmax == eps boundary); every fix carries its "
             "index as timestamp (and optionally a feature) so kept *observations* are identified; both through simplify(track, tol, mode) and the "
             "functions directly; all 3-fix (quick) / 3- and 4-fix (thorough) tracks on the 3x3 lattice are enumerated. distance_to_segment and "
-            "triangle_area are also compared point-wise. non-trivial = at least 3 fixes (a fix can be dropped)")
+            "triangle_area are also compared point-wise. "
+            "[Track-object stream `trk`] the same tracks (and the empty track) plus tracks of 10..40 fixes with 2-decimal coordinates (noisy line, closed circle, "
+            "random walk with pauses, stop cluster with an excursion, zig-zag), as Track objects with uid/tid/base set or not, 0..3 named features (NaN values "
+            "included), optional z; called directly, through simplify(track, tol, mode), simplify with keywords and verbose=False, simplify's default mode, "
+            "tracklib.simplify; optionally after 1-2 earlier simplification calls on the SAME track object or on another one (state left behind); compared with "
+            "the Track-level model: kept observations, positions, feature rows, feature dict and column indices, uid/tid/base; the input track's full snapshot must be "
+            "unchanged. The oracle additionally requires every returned observation to carry the feature values of the input observation and the input to be left "
+            "unmodified. All Track objects of 2 and 3 fixes on {0,1}^2 are enumerated. [stream `mode`] which function simplify() calls for modes -2..11. "
+            "[stream `wild`] coordinates outside any ENU frame (1e101..1e308, inf, NaN, denormals; squares overflow, areas reach ARGMIN's sentinel): the oracle's "
+            "domain is finite coordinates up to 1e100 (ENU metres), beyond it only model and code are compared. "
+            "non-trivial = at least 3 fixes (a fix can be dropped)")
 
     # ---------------------------------------------------------------- setup
     def setup(self):
